@@ -9,6 +9,7 @@ def dispatch (op : String) (payload : Json) : R Json :=
   | "results" => C03.handle payload
   | "analyse_fn" => Visit.handle payload
   | "cli_merge" => C20.handle payload
+  | "names" => C10.handle payload
   | _ => .error s!"unknown op {op}"
 
 partial def loop (h : IO.FS.Stream) (out : IO.FS.Stream) : IO Unit := do
